@@ -157,6 +157,12 @@ def scratchProblems (p : Plan) : List String :=
              | none => none)
           | none => none)
 
+/-- A file carries exactly one offline plan.  The runtime takes its tensor offsets from *a* metadata entry named
+    `OfflineMemoryAllocation` (TensorFlow Lite Micro walks the list and keeps the last one it meets); two entries are two
+    claims about where the same tensors live, and a compiled Ethos-U operator has the addresses of only one of them baked
+    into its command stream.  `n` = number of metadata entries with that name. -/
+def onePlan (n : Nat) : Bool := n == 1
+
 structure Verdict where
   conflicts : List (Nat × Nat)
   misaligned : List Nat
